@@ -121,6 +121,11 @@ def bounded(tier, seed):
             for diag in (True, False):
                 case(col, kind, keys, diag, rng)
                 n += 1
+    # FEWER recorded draws than flat coordinates (short slow window, thinned warmup): the regularised covariance is still cov + 0.001 I on EVERY coordinate
+    for kind in ("NUTS", "HMC"):
+        for diag in (True, False):
+            case(col, kind, ("c", "W"), diag, rng, T=5)  # the last flat coordinate (c) has variance 1e-4: the ridge of 0.001 dominates it
+            n += 1
     for iface in ("namedtuple", "dataclass"):
         for kind, keys, diag in (("NUTS", ("b", "a"), True), ("HMC", ("c", "W", "b"), False)):
             try:
@@ -141,7 +146,7 @@ def bounded(tier, seed):
             n += 1
     return {
         "evaluations": col.evals, "distinct_nontrivial": n,
-        "rule": (f"BOUNDED: real NUTSKernel/HMCKernel.tune (public dispatcher, SLOW_ADAPTATION epoch; single-key kernels with a history of just that key) on seeded random histories (40 draws) for {len(key_sets)} position-key tuples (non-alphabetical orders, "
+        "rule": (f"BOUNDED: real NUTSKernel/HMCKernel.tune (public dispatcher, SLOW_ADAPTATION epoch; single-key kernels with a history of just that key) on seeded random histories (40 draws; and 5 draws for 7 coordinates, the last one with variance 1e-4) for {len(key_sets)} position-key tuples (non-alphabetical orders, "
                  "scalar / vector / (2,3)-matrix / length-1 parameters with very different scales, foreign keys present in the history), diagonal and dense mode; a history with mean 1000 and sd 0.1 (float32 cancellation); "
                  "expected = var(ddof=1)+0.001 / cov+0.001*I of the kernel's own position (kernel.position(state), DictInterface; NamedTupleInterface and DataclassInterface for two key tuples) flattened with ravel_pytree per draw. one real engine run (thorough: two, and all key permutations) with "
                  f"a fast, a burn-in and two slow-adaptation epochs of equal length and a co-existing RW kernel: the matrix in force after each epoch is computed from that epoch's own stored history. seed={seed}"),
